@@ -4,7 +4,7 @@
 namespace {
 template<class T, int D> void run_td(vp::Input const& in, vp::Ctx& ctx) {
 	vp::obs().reset();
-	ctx.desc << (std::is_same_v<T, vp::Pod> ? "Pod" : "Tracked") << " D=" << D;
+	ctx.desc << (std::is_same_v<T, vp::Pod> ? "Pod" : std::is_same_v<T, vp::Init> ? "Init" : "Tracked") << " D=" << D;
 	{
 		vp::Machine<vp::MCfg<T, vp::ObsAlloc<T, 8>, 8>, D> M(ctx, 0);  // is_always_equal: allocator identity is the subject of C10, not of C08
 		M.enabled = vp::kAllOps & ~(vp::bit(vp::O_DECAY));
@@ -14,7 +14,7 @@ template<class T, int D> void run_td(vp::Input const& in, vp::Ctx& ctx) {
 	ctx.count("allocations", vp::obs().allocs);
 	ctx.count("element_constructions", vp::obs().ctor_default + vp::obs().ctor_value + vp::obs().ctor_copy + vp::obs().ctor_move);
 	static char const* const dl[] = {"D0", "D1", "D2", "D3", "D4"};
-	ctx.label(dl[D]); ctx.label(std::is_same_v<T, vp::Pod> ? "T_Pod" : "T_Tracked");
+	ctx.label(dl[D]); ctx.label(std::is_same_v<T, vp::Pod> ? "T_Pod" : std::is_same_v<T, vp::Init> ? "T_Init" : "T_Tracked");
 }
 }  // namespace
 
@@ -24,6 +24,10 @@ struct Prop {
 	static void run(vp::Input const& in, vp::Ctx& ctx) {
 		using vp::Tracked; using vp::Pod;
 		bool tr = (in.head(0) % 3U) != 0;
+		if(in.head(0) >= 224U) {  // one case in eight: trivially destructible, not trivially default constructible
+			if((in.head(1) & 1U) != 0) { run_td<vp::Init, 2>(in, ctx); } else { run_td<vp::Init, 1>(in, ctx); }
+			return;
+		}
 		switch(in.head(1) % 3) {
 			case 0: tr ? run_td<Tracked, 1>(in, ctx) : run_td<Pod, 1>(in, ctx); break;
 			case 1: tr ? run_td<Tracked, 2>(in, ctx) : run_td<Pod, 2>(in, ctx); break;
